@@ -223,16 +223,13 @@ Proof.
   rewrite gtb_negb_leb. destruct (py_in (py_len shape - 1) axis); destruct (py_nth shape (-1) <=? K_mean_reduced_axis_max_size); reflexivity.
 Qed.
 
-(* constraint_mean_width ignores whether the width axis is reduced *)
-Theorem constraint_mean_width_spec : forall shape,
-  constraint_mean_width shape = (py_nth shape (width_index shape) <=? dn doc_nums_constraint_mean_width 0).
-Proof. intros. unfold constraint_mean_width, width_index. cbv zeta. destruct (py_len shape <? 4); reflexivity. Qed.
-Theorem constraint_matches_doc_mean_width_partial : forall shape axis,
-  constraint_mean_width shape = true -> doc_mean_width shape axis = true.
-Proof. intros shape axis H. rewrite constraint_mean_width_spec in H. unfold doc_mean_width, impb. rewrite H. apply orb_true_r. Qed.
-Theorem constraint_matches_doc_mean_width_refuted : exists shape axis,
-  doc_mean_width shape axis = true /\ constraint_mean_width shape = false.
-Proof. exists [1; 4; K_mean_reduced_axis_max_size + 1; 2], [1]. split; vm_compute; reflexivity. Qed.
+Theorem constraint_matches_doc_mean_width : forall shape axis,
+  constraint_mean_width shape axis = doc_mean_width shape axis.
+Proof.
+  intros. unfold constraint_mean_width, doc_mean_width, width_index, impb. cbv zeta.
+  change (dn doc_nums_constraint_mean_width 0) with K_mean_reduced_axis_max_size.
+  destruct (py_len shape <? 4); reflexivity.
+Qed.
 
 Theorem constraint_matches_doc_argmax_depth : forall shape, constraint_argmax_depth shape = doc_argmax_depth shape.
 Proof. reflexivity. Qed.
